@@ -135,7 +135,8 @@ impl IsoDateTime {
     ) -> Self {
         let (overflow_day, time) =
             IsoTime::balance(hour, minute, second, millisecond, microsecond, nanosecond);
-        let date = IsoDate::balance(year, month, day + overflow_day);
+        // NOTE: The callers pass a time of day shifted by at most a UTC offset: a few days at most.
+        let date = IsoDate::balance(year, month, day + overflow_day as i32);
         Self::new_unchecked(date, time)
     }
 
@@ -178,7 +179,7 @@ impl IsoDateTime {
             date_duration.weeks,
             date_duration
                 .days
-                .checked_add(&FiniteF64::from(t_result.0))?,
+                .checked_add(&FiniteF64::try_from(t_result.0)?)?,
         )?;
         let duration = Duration::from(date_duration);
 
@@ -197,7 +198,8 @@ impl IsoDateTime {
         let balance_result = IsoDate::balance(
             self.date.year,
             self.date.month.into(),
-            i32::from(self.date.day) + rounded_days,
+            // NOTE: Rounding a time of day carries one day at most.
+            i32::from(self.date.day) + rounded_days as i32,
         );
         Self::new(balance_result, rounded_time)
     }
@@ -684,7 +686,7 @@ impl IsoTime {
         millisecond: i64,
         microsecond: i64,
         nanosecond: i64,
-    ) -> (i32, Self) {
+    ) -> (i64, Self) {
         // 1. Set microsecond to microsecond + floor(nanosecond / 1000).
         // 2. Set nanosecond to nanosecond modulo 1000.
         let (quotient, nanosecond) = div_mod(nanosecond, 1000);
@@ -723,7 +725,8 @@ impl IsoTime {
             nanosecond as u16,
         );
 
-        (days as i32, time)
+        // NOTE: The day count of a valid duration's time part does not fit in 32 bits.
+        (days, time)
     }
 
     /// Difference this `IsoTime` against another and returning a `TimeDuration`.
@@ -752,7 +755,7 @@ impl IsoTime {
     pub(crate) fn round(
         &self,
         resolved_options: ResolvedRoundingOptions,
-    ) -> TemporalResult<(i32, Self)> {
+    ) -> TemporalResult<(i64, Self)> {
         // 1. If unit is "day" or "hour", then
         let quantity = match resolved_options.smallest_unit {
             Unit::Day | Unit::Hour => {
@@ -828,7 +831,7 @@ impl IsoTime {
         match resolved_options.smallest_unit {
             // 9. If unit is "day", then
             // a. Return Time Record { [[Days]]: result, [[Hour]]: 0, [[Minute]]: 0, [[Second]]: 0, [[Millisecond]]: 0, [[Microsecond]]: 0, [[Nanosecond]]: 0  }.
-            Unit::Day => Ok((result_i64 as i32, Self::default())),
+            Unit::Day => Ok((result_i64, Self::default())),
             // 10. If unit is "hour", then
             // a. Return BalanceTime(result, 0, 0, 0, 0, 0).
             Unit::Hour => Ok(Self::balance(result_i64, 0, 0, 0, 0, 0)),
@@ -896,7 +899,7 @@ impl IsoTime {
             && sub_second.contains(&self.nanosecond)
     }
 
-    pub(crate) fn add(&self, norm: NormalizedTimeDuration) -> (i32, Self) {
+    pub(crate) fn add(&self, norm: NormalizedTimeDuration) -> (i64, Self) {
         // 1. Set second to second + NormalizedTimeDurationSeconds(norm).
         let seconds = i64::from(self.second) + norm.seconds();
         // 2. Set nanosecond to nanosecond + NormalizedTimeDurationSubseconds(norm).
